@@ -244,7 +244,14 @@ struct G {
     }
     void encode(int t, int s, int lang, unsigned coin) { Op& o = emit(OP_ENCODE, t, s); o.a = lang; o.b = coin; o.fail = maybe_fail(); }
     void store(int t, int s) { Op& o = emit(OP_STORE, t, s); o.fail = maybe_fail(); }
-    void keygen(int t, int s, unsigned coin, u64 size) { Op& o = emit(OP_KEYGEN, t, s); o.a = coin; o.b = size; o.fail = maybe_fail(); }
+    void keygen(int t, int s, unsigned coin, u64 size) {
+        Op& o = emit(OP_KEYGEN, t, s); o.a = coin; o.b = size; o.fail = maybe_fail();
+        // where the caller's key buffer lies and how large the caller says it is (sim.h: keygen_off/keygen_huge). Derived from a
+        // hash, not from the generator's stream, so that every other choice of the plan stays what it was.
+        u64 h = mix64(0x4B455942, mix64(plan.ops.size(), size * 2048 + coin));
+        if (h % 3 == 0) o.b |= (1 + (h >> 8) % 7) << 16;               // key buffer at an odd offset from an aligned address
+        if ((h >> 16) % 12 == 0) o.b |= (1 + (h >> 24) % 3) << 20;     // key size of 4 GiB or more (the KDF stub fills a prefix only)
+    }
     void crypt(int t, int s, const std::string& pw) {
         Op& o = emit(OP_CRYPT, t, s); o.data.assign(pw.begin(), pw.end()); o.fail = maybe_fail();
         auto it = seeds.find({t, s});
@@ -540,6 +547,13 @@ static Plan make_C11(u64 seed, int variant) {
         int s = g.free_slot(t);
         if (s < 0) { int l = g.live_slot(t); g.free_seed(t, l); s = l; }
         std::vector<u64> c{r};
+        // a clock that tells something else when asked again during the same call (error value, zero, a month later, earlier):
+        // a correct library asks once; one that asks twice must still report a birthday that one of its readings explains.
+        // Hash-derived, so that the rest of the plan stays what it was.
+        { u64 h = mix64(0x434C4B32, mix64(r, (u64)s * 64 + t));
+          if (h % 3 == 0) { static const u64 alt[] = {~0ull, 0, ~0ull - 1, EPOCH - 1}; u64 k = (h >> 8) % 7;
+                            c.push_back(k < 4 ? alt[k] : k == 4 ? r + STEP : k == 5 ? r - STEP / 2 : ~0ull);
+                            if ((h >> 16) % 2) c.push_back((h >> 24) % 2 ? ~0ull : r); } }
         g.create(t, s, g.rng.below(8), g.secret_kind(), c);
         if (!g.live(t, s)) continue;
         g.emit(OP_GETB, t, s);
@@ -629,6 +643,32 @@ static Plan make_C15(u64 seed, int variant) {
         }
         for (size_t i = all.size(); i > 1; --i) std::swap(all[i - 1], all[g.rng.below(i)]);
         for (auto& ts : all) { if (g.rng.chance(1, 10)) g.store(ts.first, ts.second); g.free_seed(ts.first, ts.second); }
+        return g.plan;
+    }
+    if (variant % 8 == 7) {
+        // churn by several threads at once over an allocator that hands the address released last to the next request
+        // (whoever makes it): every thread builds and frees its own seeds in a loop. Each thread's calls to the allocator
+        // seam must be what it makes alone, and nothing may stay allocated (a release swallowed or duplicated because of
+        // what another thread did in between shows in both).
+        g.plan.mode = "preempt";
+        g.plan.ntasks = g.ntasks = 2 + (int)g.rng.below(3);
+        g.alloc_fail_pct = (variant % 16 == 15) ? 10 : 0;
+        prologue(g, 1 + (int)g.rng.below(3), 0, (int)g.rng.below(3), (unsigned)g.rng.below(8) | 6, 7);
+        if (g.rng.chance(3, 4)) for (auto& o : g.plan.ops) if (o.kind == OP_CONFIG) o.a |= 1ull << 11;
+        int n = 3 + (int)g.rng.below(6);
+        for (int i = 0; i < n; ++i) for (int t = 0; t < g.ntasks; ++t) {
+            int s = (int)g.rng.below(2);
+            if (g.live(t, s)) g.free_seed(t, s);
+            switch (g.rng.below(4)) {
+            case 0: g.create(t, s, g.rng.below(8), g.secret_kind(), {g.clock_reading()}); break;
+            case 1: g.load_seed(t, s, g.fabricate((unsigned)g.rng.below(8))); break;
+            case 2: { AbsSeed sd = g.fabricate((unsigned)g.rng.below(8)); int li = g.pick_lang(); unsigned coin = g.pick_coin(); g.decode(t, s, g.valid_phrase(sd, li, coin, 0), coin, g.rng.chance(1, 2) ? -1 : li); break; }
+            default: { u8 bad[32]; AbsSeed sd = g.fabricate((unsigned)g.rng.below(32)); model::serialise(sd, bad); if (g.rng.chance(1, 2)) bad[8 + g.rng.below(24)] ^= 1 << g.rng.below(8); g.load_bytes(t, s, bad); break; }
+            }
+            if (g.live(t, s) && g.rng.chance(1, 2)) g.free_seed(t, s);
+            if (g.rng.chance(1, 8)) g.emit(OP_FREENULL, t, 0);
+        }
+        for (int t = 0; t < g.ntasks; ++t) for (int s = 0; s < 2; ++s) if (g.live(t, s)) g.free_seed(t, s);
         return g.plan;
     }
     prologue(g, 1 + (int)g.rng.below(3), (int)g.rng.below(2), (int)g.rng.below(3), (unsigned)g.rng.below(8), g.rng.below(8));
